@@ -18,6 +18,8 @@ type skel struct {
 	trace  int
 	vars   int
 	indent int
+	tight  bool // no trace after nested constructs: the inner construct is the last statement of its block
+	level  int
 }
 
 func (s *skel) line(format string, a ...interface{}) {
@@ -163,7 +165,9 @@ func (s *skel) emitConstruct(kind string, sel int, inLoop, inSwitch bool, body f
 		}
 		s.line("}")
 	}
-	s.tr()
+	if !(s.tight && s.level > 0) {
+		s.tr()
+	}
 }
 
 func nBodies(kind string) int {
@@ -190,14 +194,18 @@ type skelSpec struct {
 	at    []int // which body of each construct continues the nesting
 	jmp   string
 	twin  bool // place an extra jump-free sibling statement after the nest
+	tight bool // nested constructs end their enclosing block (no trailing trace)
 }
 
 func (sp skelSpec) build(id int) *Prog {
-	s := &skel{indent: 1}
+	s := &skel{indent: 1, tight: sp.tight}
 	var emit func(level int, inLoop, inSwitch bool)
 	emit = func(level int, inLoop, inSwitch bool) {
+		s.level = level
 		if level == len(sp.kinds) {
-			s.tr()
+			if !sp.tight {
+				s.tr()
+			}
 			switch sp.jmp {
 			case "break":
 				if inLoop || inSwitch {
@@ -229,7 +237,11 @@ func (sp skelSpec) build(id int) *Prog {
 		kind := sp.kinds[level]
 		s.emitConstruct(kind, level, inLoop, inSwitch, func(i int, il, is bool) {
 			if i == sp.at[level]%nBodies(kind) {
+				if sp.tight && level+1 < len(sp.kinds) {
+					s.tr() // something before the nested construct, nothing after it
+				}
 				emit(level+1, il, is)
+				s.level = level
 			} else {
 				s.tr()
 			}
@@ -241,6 +253,9 @@ func (sp skelSpec) build(id int) *Prog {
 	// unreachable code after a terminating statement makes "declared and not used"-free Go; a trailing return after
 	// return/break is legal Go.
 	desc := strings.Join(sp.kinds, ">") + fmt.Sprintf("@%v:%s", sp.at, sp.jmp)
+	if sp.tight {
+		desc += ":tight"
+	}
 	return &Prog{ID: "skel:" + desc, Src: src, Entry: name,
 		Params:  []Param{{"n", "int"}, {"s0", "int"}, {"s1", "int"}, {"s2", "int"}, {"s3", "int"}},
 		Results: []string{"int"}, Family: "C06/" + desc,
@@ -292,6 +307,15 @@ func genC06(tier string, seed int64) []*Prog {
 			}
 		}
 	}
+	// tight twins: the nested construct (and the jump) is the last statement of the enclosing block
+	base := len(specs)
+	for i := 0; i < base; i++ {
+		if len(specs[i].kinds) == 2 && specs[i].jmp != "none" && specs[i].jmp != "condbreak" && specs[i].jmp != "condcontinue" {
+			t := specs[i]
+			t.tight = true
+			specs = append(specs, t)
+		}
+	}
 	rng := rand.New(rand.NewSource(seed))
 	depth2 := len(specs)
 	// depth 3: seeded sample (quick) / larger sample (thorough)
@@ -304,7 +328,7 @@ func genC06(tier string, seed int64) []*Prog {
 		var keep []skelSpec
 		rng.Shuffle(len(specs), func(i, j int) { specs[i], specs[j] = specs[j], specs[i] })
 		for _, sp := range specs {
-			k := strings.Join(sp.kinds, ">") + ":" + sp.jmp
+			k := strings.Join(sp.kinds, ">") + ":" + sp.jmp + fmt.Sprint(sp.tight)
 			if !seen[k] || (strings.HasPrefix(sp.kinds[len(sp.kinds)-1], "sw") && sp.at[len(sp.at)-1] == 2) {
 				seen[k] = true
 				keep = append(keep, sp)
@@ -318,7 +342,7 @@ func genC06(tier string, seed int64) []*Prog {
 		if !validJump(ks, j) {
 			continue
 		}
-		specs = append(specs, skelSpec{kinds: ks, at: []int{rng.Intn(3), rng.Intn(3), rng.Intn(3)}, jmp: j})
+		specs = append(specs, skelSpec{kinds: ks, at: []int{rng.Intn(3), rng.Intn(3), rng.Intn(3)}, jmp: j, tight: rng.Intn(3) == 0 && (j == "break" || j == "continue" || j == "return")})
 	}
 	var progs []*Prog
 	for i, sp := range specs {
